@@ -21,6 +21,7 @@ struct Item {
 struct ItemRcv {
   Item* it; Clock* k; inplace_stop_token tok{};
   void done(char h) noexcept {
+    vmc::publish();
     ++it->count; it->how = h; it->thread = vmc::self(); it->ran_at = k->tick();
     vmc::check(it->count == 1, "C06,C01", "ran-twice", "a scheduled item completed more than once");
   }
